@@ -624,6 +624,109 @@ struct IntrFeldman : IMap {
     bool contains( long k ) override { return s->contains( fhash_of( k )); }
 };
 
+// Tie A (atomic-trace conformance with the Lean machine lean/CdsVerif/Algo/Feldman/Model.lean): intrusive
+// FeldmanHashSet<HP> in which every word the machine models has a name:
+//   h<i>       slot i of the head array
+//   a<k>       the k-th array node allocated through the traits' node allocator (k = 1, 2, ...: allocation order; an
+//              array node freed after a failed conversion CAS keeps its number and its memory is not reused)
+//   a<k>.<i>   slot i of that array node
+//   n<j>       the item brought by the j-th INVOKED insert / update
+// The allocation of an array node is thread-local; it appears in the trace as the pseudo-event `alloc a<k> <slots>`
+// (a scheduling point of its own) so that the machine numbers the nodes in the same order.
+// Header words: hb= ab= (effective head / array bits) shift= (hash = key << shift).
+struct fa_state {
+    bool active = false;
+    size_t count = 0;
+    size_t slot_off = 0, slot_size = 0;
+    std::vector<void*> blocks;
+};
+static fa_state g_fa;
+static void* fa_alloc( size_t bytes )
+{
+    if ( g_fa.active && g_fa.count > 0 )
+        pseudo_begin();         // the scheduling point comes BEFORE the number is taken
+    void* p = ::operator new( bytes );
+    if ( !g_fa.active )
+        return p;
+    g_fa.blocks.push_back( p );
+    size_t k = g_fa.count++;
+    size_t nslots = ( bytes - g_fa.slot_off ) / g_fa.slot_size;
+    char nm[48];
+    std::snprintf( nm, sizeof nm, "a%zu", k );
+    reg_name( p, g_fa.slot_off, nm );
+    for ( size_t i = 0; i < nslots; ++i ) {
+        if ( k == 0 ) std::snprintf( nm, sizeof nm, "h%zu", i );
+        else std::snprintf( nm, sizeof nm, "a%zu.%zu", k, i );
+        reg_name( static_cast<char*>( p ) + g_fa.slot_off + i * g_fa.slot_size, g_fa.slot_size, nm );
+    }
+    if ( k > 0 ) {
+        std::snprintf( nm, sizeof nm, "a%zu", k );
+        pseudo_end( "alloc", nm, std::to_string( nslots ));
+    }
+    return p;
+}
+static void fa_free( void* p )
+{
+    if ( !g_fa.active )
+        ::operator delete( p );
+}
+template <class T>
+struct naming_alloc {
+    typedef T value_type;
+    naming_alloc() {}
+    template <class U> naming_alloc( naming_alloc<U> const& ) {}
+    template <class U> struct rebind { typedef naming_alloc<U> other; };
+    T* allocate( size_t n, void const* = nullptr ) { return static_cast<T*>( fa_alloc( n * sizeof( T ))); }
+    void deallocate( T* p, size_t ) { fa_free( p ); }
+    template <class U> bool operator==( naming_alloc<U> const& ) const { return true; }
+    template <class U> bool operator!=( naming_alloc<U> const& ) const { return false; }
+};
+struct ifset_named_traits : ci::feldman_hashset::traits {
+    typedef fitem_hash_accessor hash_accessor;
+    typedef noop_disposer disposer;
+    typedef naming_alloc<int> node_allocator;
+};
+struct IntrFeldmanNamed : IMap {
+    typedef ci::FeldmanHashSet<cds::gc::HP, fitem, ifset_named_traits> set_t;
+    std::unique_ptr<set_t> s;
+    std::vector<std::unique_ptr<fitem>> items;
+    size_t named = 0;
+    IntrFeldmanNamed( size_t head_bits, size_t array_bits )
+    {
+        can_extract = false;
+        g_fa = fa_state();
+        g_fa.active = true;
+        g_fa.slot_off = offsetof( set_t::array_node, nodes );
+        g_fa.slot_size = sizeof( set_t::atomic_node_ptr );
+        s.reset( new set_t( head_bits, array_bits ));
+    }
+    ~IntrFeldmanNamed()
+    {
+        s.reset();
+        cds::gc::HP::force_dispose();
+        for ( void* p : g_fa.blocks ) ::operator delete( p );
+        g_fa = fa_state();
+    }
+    size_t head_bits() const { return s->metrics().head_node_size_log; }
+    size_t array_bits() const { return s->metrics().array_node_size_log; }
+    fitem* make( long k, long v )
+    {
+        set_quiet( true );
+        fitem* p = new fitem( k, v );
+        set_quiet( false );
+        items.emplace_back( p );
+        char nm[32];
+        std::snprintf( nm, sizeof nm, "n%zu", ++named );
+        reg_name( p, sizeof( fitem ), nm );
+        return p;
+    }
+    bool insert( long k, long v ) override { return s->insert( *make( k, v )); }
+    std::pair<bool, bool> update( long k, long v, bool allow ) override { return s->update( *make( k, v ), allow ); }
+    bool erase( long k, long& v ) override { return s->erase( fhash_of( k ), [&v]( fitem const& item ) { v = item.val; } ); }
+    bool find( long k, long& v ) override { return s->find( fhash_of( k ), [&v]( fitem& item ) { v = item.val; } ); }
+    bool contains( long k ) override { return s->contains( fhash_of( k )); }
+};
+
 // ---------------------------------------------------------------- fixture
 
 struct Fixture {
@@ -745,6 +848,18 @@ struct Fixture {
             g_hash_m1 = mode == 2;
             m.reset( new IntrSplitNamed );
             hx = std::string( "cap=64 lf=1 coll=" ) + std::to_string( mode );
+        }
+        // tie A variant, not chosen at random (use --variant): see IntrFeldmanNamed
+        else if ( v == "ifset_hp_named" ) {
+            static unsigned const nshifts[] = { 0, 3, 8, 13, 30, 56, 2, 5 };
+            g_fshift = nshifts[c.index % 8];
+            size_t head = 4 + ( c.index / 8 ) % 3;
+            size_t arr = 2 + ( c.index / 24 ) % 2;
+            gen.maxkeys = 6;
+            gen.ins_heavy = ( c.index % 3 ) == 1;
+            IntrFeldmanNamed* f = new IntrFeldmanNamed( head, arr );
+            m.reset( f );
+            hx = "hb=" + std::to_string( f->head_bits()) + " ab=" + std::to_string( f->array_bits()) + " shift=" + std::to_string( g_fshift );
         }
         else if ( v[0] == 'f' || v[0] == 'i' ) {
             static unsigned const shifts[] = { 0, 3, 8, 13, 30, 56 };
